@@ -111,6 +111,26 @@ class Fn:
                 return "bool"
             if e[2] in ("copied", "cloned", "clone", "collect", "to_string_lossy", "chain", "iter", "ok", "to_string", "to_owned"):
                 return self.ty(e[1], env)
+            if self.spec.get("iterators"):
+                rt0 = self.ty(e[1], env)
+                if e[2] in ("chunks", "par_chunks"):
+                    return "Vec<%s>" % (rt0 or "Vec<u8>")
+                if e[2] == "enumerate":
+                    m0 = re.match(r"Vec<(.*)>$", rt0 or "")
+                    return "Vec<(usize,%s)>" % m0.group(1) if m0 else None
+                if e[2] in ("iter", "into_iter", "collect"):
+                    return rt0
+                if e[2] in ("map", "find") and len(e[3]) == 1 and e[3][0][0] == "closure" and len(e[3][0][1]) == 1:
+                    m0 = re.match(r"Vec<(.*)>$", rt0 or "")
+                    if m0:
+                        if e[2] == "find":
+                            return "Option<%s>" % m0.group(1)
+                        try:
+                            _ps, add0 = self.pat(e[3][0][1][0], env, m0.group(1))
+                        except Unsupported:
+                            return None
+                        bt = self.ty(e[3][0][2], dict(env, **add0))
+                        return "Vec<%s>" % bt if bt else None
             if e[2] == "next" and e[1][0] == "mcall" and e[1][2] == "split" and len(e[1][3]) == 1 and e[1][3][0][0] == "char":
                 return "Option<%s>" % (self.ty(e[1][1], env) or "str")
             if e[2] == "and_then" and len(e[3]) == 1 and e[3][0][0] == "closure" and len(e[3][0][1]) == 1:
@@ -370,6 +390,9 @@ class Fn:
                 return self.fields[(t, e[2])][0].format(self.ex(e[1], env))
             raise Unsupported("field .%s of type %s" % (e[2], t))
         if k == "index":
+            it0 = self.ty(e[1], env)
+            if it0 in self.spec.get("index_fn", {}):
+                return "(%s %s %s)" % (self.spec["index_fn"][it0], self.ex(e[1], env), self.ex(e[2], env))
             return "(nthZ %s %s)" % (self.ex(e[1], env), self.ex(e[2], env))
         if k == "slice":
             base = self.ex(e[1], env)
@@ -446,6 +469,8 @@ class Fn:
                 if name in self.paths or f[1][-1] in self.paths:      # enum constructor with arguments
                     return "(%s %s)" % (self.path(f[1], env), " ".join(paren(self.ex(a, env)) for a in e[2]))
             raise Unsupported("call of %s" % (f,))
+        if k == "mcall" and (self.ty(e[1], env), e[2]) in self.spec.get("typed_methods", {}):
+            return self.apply(self.spec["typed_methods"][(self.ty(e[1], env), e[2])], [self.ex(a, env) for a in [e[1]] + e[3]])
         if k == "mcall":
             recv, name, args = e[1], e[2], e[3]
             if name in ("copied", "cloned", "clone", "to_owned", "iter", "as_ref", "collect", "to_path_buf", "to_string_lossy", "ok", "as_os_str", "to_string", "into") and not args:
@@ -490,6 +515,19 @@ class Fn:
             if name == "strip_prefix" and len(args) == 1 and args[0][0] == "str":
                 lit = args[0][1].strip('"')
                 return "(strip_prefix_lit [%s] %s)" % ("; ".join(str(ord(c)) for c in lit), self.ex(recv, env))
+            if self.spec.get("iterators"):
+                if name in ("chunks", "par_chunks") and len(args) == 1:
+                    return "(chunksZ %s %s)" % (self.ex(args[0], env), self.ex(recv, env))
+                if name == "enumerate" and not args:
+                    return "(enumerateZ %s)" % self.ex(recv, env)
+                if name in ("iter", "into_iter", "collect") and not args:
+                    return self.ex(recv, env)
+                if name in ("map", "find") and len(args) == 1 and args[0][0] == "closure" and len(args[0][1]) == 1 \
+                        and re.match(r"Vec<(.*)>$", self.ty(recv, env) or ""):
+                    et = re.match(r"Vec<(.*)>$", self.ty(recv, env)).group(1)
+                    ps, add = self.pat(args[0][1][0], env, et)
+                    lam = "(fun %s => %s)" % (paren(ps) if not ps.startswith("(") else "'" + ps, self.ex(args[0][2], dict(env, **add)))
+                    return "(%s %s %s)" % ("map" if name == "map" else "find", lam, self.ex(recv, env))
             if name == "contains" and len(args) == 1 and recv[0] == "range" and recv[3]:
                 x = self.ex(args[0], env)
                 return "((%s <=? %s) && (%s <=? %s))" % (self.ex(recv[1], env), x, x, self.ex(recv[2], env))
@@ -818,6 +856,10 @@ class Fn:
                 if n and n[0] == "mcall" and n[1][0] == "path" and len(n[1][1]) == 1 and (n[1][1][0] + "." + n[2]) in self.spec.get("updates", {}):
                     if n[1][1][0] not in out:
                         out.append(n[1][1][0])
+                if n and n[0] == "mcall" and len(n) == 4 and n[2] == "push" and n[1][0] == "mcall" and n[1][2] == "or_default" and n[1][1][0] == "mcall" \
+                        and n[1][1][2] == "entry" and n[1][1][1][0] == "path" and len(n[1][1][1][1]) == 1 and self.spec.get("iterators"):
+                    if n[1][1][1][1][0] not in out:
+                        out.append(n[1][1][1][1][0])
                 if n and n[0] == "let" and len(n) == 5 and n[1] == ("pwild",) and n[3] is not None and n[3][0] == "macro" and n[3][1] == "write" \
                         and n[3][2] and n[3][2][0][0] == "id" and self.spec.get("format_bytes"):
                     if n[3][2][0][1] not in out:
@@ -893,6 +935,10 @@ class Fn:
                     raise Unsupported("a printing loop with an unknown line format %s" % fmt0)
                 return "let %s := %s ++ %s in %s" % (pr, pr, self.ex(s[2], env), after(env))
             return after(env)
+        if k == "expr" and s[1][0] == "mcall" and s[1][2] == "push" and s[1][1][0] == "mcall" and s[1][1][2] == "or_default" and s[1][1][1][0] == "mcall" \
+                and s[1][1][1][2] == "entry" and s[1][1][1][1][0] == "path" and len(s[1][1][1][1][1]) == 1 and self.spec.get("iterators"):
+            mv = s[1][1][1][1][1][0]
+            return "let %s := al_push %s %s %s in %s" % (self.var(mv), self.ex(s[1][1][1][3][0], env), self.ex(s[1][3][0], env), self.var(mv), after(env))
         if k == "let" and s[1][0] == "pwild" and s[3] is not None and s[3][0] == "macro" and s[3][1] == "write" and self.spec.get("format_bytes") \
                 and len(s[3][2]) >= 3 and s[3][2][0][0] == "id" and s[3][2][1] == ("op", ",") and s[3][2][0][1] in env:
             tgt = s[3][2][0][1]
@@ -1887,11 +1933,12 @@ def functions():
             spec = dict(try_transparent=True, exact_arith=True, narrow_u32="w32",
                         fields={("Signature", "block_size"): ("(s_block_size _ {0})", "usize"), ("Signature", "file_size"): ("(s_file_size _ {0})", "u64"),
                                 ("BlockSignature", "index"): ("(b_idx _ {0})", "u32")},
-                        calls={"SignatureTable::from_signature": ("s_blocks _ {0}", "Vec<BlockSignature>"), "StrongHash::compute": ("H {0}", "StrongHash"),
+                        calls={"SignatureTable::from_signature": ("g_table_from_signature digest {0}", "SignatureTable"), "StrongHash::compute": ("H {0}", "StrongHash"),
                                "Delta::with_checksum": ("Build_delta digest {0} {1} {2} [] {3}", "Delta"), ".min": ("Z.min {0} {1}", "usize"),
                                "FastRollingChecksum::new": ("frc_new {0}", "Rolling"), ".digest": ("frc_digest {0}", "u32"),
-                               ".has_weak_match": ("has_weak digest {0} {1}", "bool"),
-                               ".find_match": ("find_match digest H deq {0} {1} {2}", "Option<BlockSignature>")},
+                               ".has_weak_match": ("g_table_has_weak_match digest {0} {1}", "bool"),
+                               ".find_match": ("g_table_find_match digest H deq {0} {1} {2}", "Option<BlockSignature>")},
+                        typed_methods={("SignatureTable", "is_empty"): "g_table_is_empty digest {0}"},
                         updates={"delta.push_copy": "dpush_copy {0} {1} {2}", "delta.push_literal": "dpush_lit {0} {1}",
                                  "delta.push_literal_byte": "dpush_lit_byte {0} {1}", "rolling.roll": "frc_roll {0} {1} {2}"},
                         rename={"self": "tt"}, ok=lambda s_: "dfinish " + paren(s_))
@@ -2218,7 +2265,7 @@ def functions():
                     fields={("AsyncCopiaSync", "config"): ("{0}", "SyncConfig"), ("SyncConfig", "block_size"): ("bsz (* {0} *)", "usize")},
                     calls={"tokio::fs::try_exists": ("(Some (exists_file fs {0}))", "Option<bool>"),
                            "tokio::fs::read": ("read_file source fs {0}", "Vec<u8>"),
-                           "crate::Signature::generate": ("gen_signature digest H bs {0} (* {1} *)", "Signature"), "Cursor::new": ("{0}", "Vec<u8>"),
+                           "crate::Signature::generate": ("g_sig_generate digest H {0} {1}", "Signature"), "Cursor::new": ("{0}", "Vec<u8>"),
                            "crate::CopiaSync::with_block_size": ("tt (* {0} *)", "CopiaSync"),
                            ".delta": ("compute_delta digest H deq bs {2} {1} (* {0} *)", "Delta"),
                            ".bytes_matched": ("matched_of {0}", "u64"), ".bytes_literal": ("lits (d_ops _ {0})", "u64"),
@@ -2356,6 +2403,70 @@ def functions():
         return "Definition g_hub_conflict_name (dst hash : list Z) : list Z :=\n  %s." % text
     out.append(("hub_conflict_name", "src/bin/copia/serve.rs handle_put: the conflict-copy name", None, t_hub_conflict_name))
 
+    SIG_READ = "{ let mut data = Vec::new(); reader.read_to_end(&mut data)?; }"
+
+    def sig_spec():
+        return dict(try_transparent=True, iterators=True, narrow_u32="w32",
+                    fields={("BlockSignature", "index"): ("(b_idx _ {0})", "u32"), ("BlockSignature", "weak_hash"): ("(b_weak _ {0})", "u32"),
+                            ("BlockSignature", "strong_hash"): ("(b_strong _ {0})", "StrongHash"),
+                            ("Signature", "blocks"): ("(s_blocks _ {0})", "Vec<BlockSignature>"),
+                            ("SignatureTable", "weak_index"): ("(fst {0})", "WeakIndex"), ("SignatureTable", "signature"): ("(snd {0})", "Signature")},
+                    calls={"RollingChecksum::new": ("rc_new {0}", "Rolling"), ".digest": ("rc_digest {0}", "u32"), "StrongHash::compute": ("H {0}", "StrongHash"),
+                           "BlockSignature::compute": ("g_bsig_compute {0} {1}", "BlockSignature"), "Vec::new": ("[]", "Vec<BlockSignature>"),
+                           "FxHashMap::with_capacity_and_hasher": ("(@nil (Z * list Z)) (* {0} *)", "WeakIndex"),
+                           ".get": ("al_find {1} {0}", "Option<Vec<usize>>"), ".contains_key": ("(match al_find {1} {0} with Some _ => true | None => false end)", "bool"),
+                           ".div_ceil": ("tt (* {0} {1} *)", "usize")},
+                    consts={"rustc_hash::FxBuildHasher": ("tt", "Hasher")},
+                    structs={"Self": ("MKSELF", [], [])},
+                    eq={"StrongHash": "digest_eqb"}, index_fn={"Vec<BlockSignature>": "nth_blk"})
+
+    def t_bsig_compute():
+        src = read("src/signature.rs")
+        spec = sig_spec()
+        spec["structs"] = {"Self": ("Build_bsig digest", ["index", "weak_hash", "strong_hash"], ["u32", "u32", "StrongHash"])}
+        spec["signature"] = [("index", "u32"), ("data", "[u8]")]
+        return translate_fn(src, "compute", "BlockSignature", spec, "g_bsig_compute", "(index : Z) (data : list Z)", "bsig digest")
+    out.append(("bsig_compute", "src/signature.rs BlockSignature::compute", None, t_bsig_compute))
+
+    def t_sig_generate():
+        src = read("src/signature.rs")
+        params, ret, body = R.find_fn(src, "generate", "Signature")
+        norm = lambda x: json.loads(json.dumps(x))
+        want = R.Parser(R.tokenize(SIG_READ)).block()[1]
+        stmts = list(body[1])
+        if [n for n, _ in params] != ["reader", "block_size"] or norm(stmts[:2]) != norm(want):
+            raise Unsupported("Signature::generate: the basis is no longer read whole by `let mut data = Vec::new(); reader.read_to_end(&mut data)?;`")
+        spec = sig_spec()
+        spec["structs"] = {"Self": ("Build_signature digest", ["block_size", "file_size", "blocks"], ["usize", "u64", "Vec<BlockSignature>"])}
+        spec["print_only_lets"] = ("expected_blocks",)
+        spec["ok"] = lambda s_: s_
+        fn = Fn(spec)
+        text = fn.block(("block", stmts[2:], body[2]), {"block_size": "usize", "data": "Vec<u8>"}, Ctx(val=(lambda x: x), ret=(lambda x: x), fall=None))
+        return "Definition g_sig_generate (data : list Z) (block_size : Z) : signature digest :=\n  %s." % text
+    out.append(("sig_generate", "src/signature.rs Signature::generate", None, t_sig_generate))
+
+    def t_table(fname, gname, gparams, gret, sigparams, try_none=None):
+        def go():
+            src = read("src/signature.rs")
+            spec = sig_spec()
+            spec["structs"] = {"Self": ("pair", ["weak_index", "signature"], ["WeakIndex", "Signature"])}
+            spec["rename"] = {"self": "tbl"}
+            if try_none:
+                spec["try_transparent"] = False
+                spec["try_none"] = try_none
+            spec["signature"] = sigparams
+            return translate_fn(src, fname, "SignatureTable", spec, gname, gparams, gret, self_type="SignatureTable")
+        return go
+    out.append(("table_from_signature", "src/signature.rs SignatureTable::from_signature", None,
+                t_table("from_signature", "g_table_from_signature", "(signature : Delta.signature digest)", "list (Z * list Z) * Delta.signature digest", [("signature", "Signature")])))
+    out.append(("table_find_match", "src/signature.rs SignatureTable::find_match", None,
+                t_table("find_match", "g_table_find_match", "(tbl : list (Z * list Z) * Delta.signature digest) (weak : Z) (data : list Z)", "option (bsig digest)",
+                        [("self", "Self"), ("weak", "u32"), ("data", "[u8]")], try_none="None")))
+    out.append(("table_has_weak_match", "src/signature.rs SignatureTable::has_weak_match", None,
+                t_table("has_weak_match", "g_table_has_weak_match", "(tbl : list (Z * list Z) * Delta.signature digest) (weak : Z)", "bool", [("self", "Self"), ("weak", "u32")])))
+    out.append(("table_is_empty", "src/signature.rs SignatureTable::is_empty", None,
+                t_table("is_empty", "g_table_is_empty", "(tbl : list (Z * list Z) * Delta.signature digest)", "bool", [("self", "Self")])))
+
     def t_run_remote():
         src = read("src/bin/copia/incremental.rs")
         params, ret, body = R.find_fn(src, "run_remote", None)
@@ -2460,8 +2571,9 @@ GROUPS = {
     "Protocol": ("Model.Checksum Model.Delta Model.Protocol", False, ["from_u8", "hvalidate"]),
     "CliReaders": ("Model.Checksum Model.Delta Model.Protocol", "clireaders", ["validate_block_size", "run_patch", "run_delta"]),
     "DeltaV": ("Model.Checksum Model.Delta", True, ["delta_validate"]),
-    "Scan": ("Model.Checksum Model.Delta", "scan", ["delta", "async_delta"]),
-    "SyncFiles": ("Model.Checksum Model.Delta", "syncfiles", ["sync_files"]),
+    "SigTable": ("Model.Checksum Model.Delta", "sigtable", ["bsig_compute", "sig_generate", "table_from_signature", "table_find_match", "table_has_weak_match", "table_is_empty"]),
+    "Scan": ("Model.Checksum Model.Delta Gen.SigTableGen", "scan", ["delta", "async_delta"]),
+    "SyncFiles": ("Model.Checksum Model.Delta Gen.SigTableGen", "syncfiles", ["sync_files"]),
     "Patch": ("Model.Checksum Model.Delta Gen.DeltaVGen", "patch", ["patch", "async_patch"]),
     "SafeJoin": ("Model.SafeJoin", False, ["safe_join"]),
 }
@@ -2621,6 +2733,18 @@ def main():
         elif digest == "conflictname":
             body = (HEADER % (group, "")).replace(" .\n", ".\n") + ("\n(* `{b:02x}`: two lower-case hexadecimal digits of a byte *)\n"
                     "Definition hexd (n : Z) : Z := if n <? 10 then 48 + n else 87 + n.\nDefinition hex2 (b : Z) : list Z := [hexd (b / 16); hexd (b mod 16)].\n\n" + "\n".join(texts))
+        elif digest == "sigtable":
+            body += ("\nSection WithDigest.\nVariable digest : Type.\nVariable H : list Z -> digest.\nVariable deq : forall x y : digest, {x = y} + {x <> y}.\n"
+                     "Definition digest_eqb (x y : digest) : bool := if deq x y then true else false.\n"
+                     "(* `data.chunks(n)`: consecutive pieces of n bytes, the last one shorter - Model/Delta.v [chunks] *)\n"
+                     "Definition chunksZ (n : Z) (l : list Z) : list (list Z) := Delta.chunks (Z.to_nat n) (length l) l.\n"
+                     "Fixpoint enumerate_from {A} (i : Z) (l : list A) : list (Z * A) := match l with [] => [] | x :: r => (i, x) :: enumerate_from (i + 1) r end.\n"
+                     "Definition enumerateZ {A} (l : list A) : list (Z * A) := enumerate_from 0 l.\n"
+                     "(* FxHashMap<u32, Vec<usize>> with `entry(k).or_default().push(v)` and `get(&k)`: buckets in insertion order *)\n"
+                     "Fixpoint al_push (k v : Z) (m : list (Z * list Z)) : list (Z * list Z) :=\n  match m with [] => [(k, [v])] | (k', vs) :: r => if k' =? k then (k', vs ++ [v]) :: r else (k', vs) :: al_push k v r end.\n"
+                     "Fixpoint al_find (k : Z) (m : list (Z * list Z)) : option (list Z) :=\n  match m with [] => None | (k', vs) :: r => if k' =? k then Some vs else al_find k r end.\n"
+                     "Definition nth_blk (l : list (bsig digest)) (i : Z) : bsig digest := nth (Z.to_nat i) l (Build_bsig digest 0 0 (H [])).\n\n"
+                     + "\n".join(texts) + "End WithDigest.\n")
         elif digest == "archivesys":
             body = (HEADER % (group, imports)) + "\nSection WithFs.\nVariable path_exists : apath -> bool.   (* path.exists() *)\n\n" + "\n".join(texts) + "End WithFs.\n"
         elif digest == "onewaysys":
